@@ -2,7 +2,8 @@
 From Coq Require Import String List NArith.
 From Aranya Require Import model.PegSyntax model.ShapeRe model.Frontend
   proofs.ShapeReProofs proofs.FrontendShape proofs.FrontendFacts proofs.FrontendSites
-  gen.GenGrammar gen.GenFrontendSites.
+  gen.GenGrammar gen.GenFrontendSites
+  model.FrontMatterSyntax model.FrontMatter proofs.FrontMatterProofs gen.GenFrontMatter.
 Import ListNotations.
 
 (** Every panic-capable site of the current source has a ledger row, and every row is either
@@ -35,3 +36,23 @@ Check shape_analysis_sound :
     matches (top_shape G n) (map root ts) = true
     /\ forallb (tree_all (fun r w => matches (children_shape G r) w)) ts = true.
 Print Assumptions shape_analysis_sound.
+
+(** The guard in front of the Markdown parser ([has_unterminated_front_matter], whose trim set and
+    fence literals are regenerated into gen/GenFrontMatter.v and pinned) recognises a closing fence
+    exactly when markdown-rs does: three marker characters, then spaces / tabs only. *)
+Theorem front_matter_guard_exact : front_matter_guard_exact_stmt.
+Proof. exact front_matter_guard_exact_proof. Qed.
+Check front_matter_guard_exact :
+  forall (o line : text), In o fm_fences ->
+    (fence fm_trim fm_fences line = Some o <-> md_closing_fence o line = true).
+Print Assumptions front_matter_guard_exact.
+
+Theorem guard_passes_only_closed : guard_passes_only_closed_stmt.
+Proof. exact guard_passes_only_closed_proof. Qed.
+Check guard_passes_only_closed :
+  forall (data first : text) (rest : list text) (o : text),
+    split_on fm_line_seps [] (skip_prefix fm_skip_prefix data) = first :: rest ->
+    fence fm_trim fm_fences first = Some o ->
+    has_unterminated_front_matter fm_trim fm_fences fm_line_seps fm_skip_prefix data = false ->
+    exists ln, In ln rest /\ md_closing_fence o ln = true.
+Print Assumptions guard_passes_only_closed.
